@@ -158,6 +158,7 @@ def check_function(ctx, modname, name, f, inline, n_random):
                {"kids": [T("k")], "dicts": [], "kw": [["class_", S_("c")], ["for_", S_("f")], ["http_equiv", S_("r")], ["accept_charset", S_("u")], ["x__", S_("d")]]},
                {"kids": [], "dicts": [], "kw": [["target", S_("_blank")], ["href", S_("/x")]]},
                {"kids": [T("t")], "dicts": [[["target", S_("_blank")]]], "kw": [["download", {"t": "true"}], ["rel", S_("me")], ["type", S_("button")], ["role", S_("r")]]},
+               {"kids": [gen.TAG("div", T("blk"), ws=True), gen.TAG("section", gen.TAG("p", T("x"), ws=True), ws=True), gen.TAG("span", T("inl"), ws=False)], "dicts": [], "kw": []},
                # the order of keyword attributes is the caller's order, whatever the names are
                {"kids": [], "dicts": [], "kw": [["class_", S_("c")], ["href", S_("/x")], ["id", S_("i")], ["src", S_("s")], ["name", S_("n")], ["type", S_("t")], ["value", S_("v")]]},
                {"kids": [], "dicts": [], "kw": [["value", S_("v")], ["type", S_("t")], ["name", S_("n")], ["src", S_("s")], ["id", S_("i")], ["href", S_("/x")], ["class_", S_("c")],
@@ -171,11 +172,15 @@ def check_function(ctx, modname, name, f, inline, n_random):
         except Exception as e:
             want, want_exc = None, e
         pos2, kw2 = build_args(args)
+        arg_fp = fp(pos2)
         try:
             got = f(*pos2, **kw2)
             got_exc = None
         except Exception as e:
             got, got_exc = None, e
+        if fp(pos2) != arg_fp:
+            ctx.violation("arguments-modified", "%s.%s(*a, **k) changed its arguments (children / attribute dicts are passed through, not altered)" % (modname, name), w2)
+            return
         ctx.count("oracle.pass_through")
         ctx.case((modname, name, args), nontrivial=bool(args["kids"]) and bool(args["kw"] or any(args["dicts"])))
         if (want_exc is None) != (got_exc is None) or (want_exc is not None and type(want_exc) is not type(got_exc)):
